@@ -131,6 +131,8 @@ def finalize(m: dict, tier: str) -> list[str]:
               "construct:malformed", "sec:roundtrip", "sec:malformed", "toy:add_jac:V==0"):
         if not c.get(k):
             out.append(f"input class {k} never evaluated")
+    if not m.get("stats", {}).get("construct:anomalous-n-equals-p"):
+        out.append("no anomalous curve (n == p) was handed to the constructor")
     return out
 
 
@@ -400,6 +402,20 @@ def shard_construct(ctx: Ctx) -> None:
         for rc, G, n, h, N in curves:
             if ctx.out_of_time() or used >= (40 if ctx.tier == "quick" else 150):
                 break
+            if n == p:
+                # SEC 1 3.1.1.2.1 step 8: an anomalous curve (#<G> = p) fails domain-parameter validation, whatever the
+                # optional embedding-degree computation is set to
+                for wc in (False, True):
+                    o = outcome(Curve, p, rc.a, rc.b, G, n, h, wc)
+                    if o[0] == "ok":
+                        ctx.violation("malformed-curve-accepted:anomalous-n-equals-p",
+                                      f"Curve({p},{rc.a},{rc.b},{G},{n},{h}, weakness_check={wc}) was accepted",
+                                      {"args": (p, rc.a, rc.b, G, n, h), "weakness_check": wc})
+                    elif not isinstance(o[1], BTClibValueError):
+                        ctx.violation("malformed-curve-foreign-exception:anomalous-n-equals-p", f"{o[1]!r}", {"args": (p, rc.a, rc.b, G, n, h)})
+                    ctx.case("construct:malformed", ("anomalous", p, rc.a, rc.b, G, wc))
+                    ctx.stat("construct:anomalous-n-equals-p")
+                continue
             if outcome(Curve, p, rc.a, rc.b, G, n, h, False)[0] != "ok":
                 continue
             used += 1
